@@ -94,6 +94,14 @@ def run_c08(ctx):
            note="Sutherland-Hodgman transcription satisfies the region predicate, in-box, closure, inside-unchanged, disjoint-nothing, split additivity")
     shards = ctx.gen("clipring")
     ctx.validate("ClipRing_Trace", shards)
+    # mvt Layer.Clip / Layers.Clip: clip every feature, drop the emptied ones, compacting the slice in place
+    ctx.mc("MvtLayerMC", "MvtLayerMC.cfg", workers=4,
+           note="in-place compaction loop = filter-map for every layer of <=5 features x result vectors; write index never overtakes read index")
+    ctx.mc_expect_violation("MvtLayerMC", "MvtLayerMC_splice.cfg", "SpliceFinal", workers=1,
+                            note="non-vacuity: the remove-while-iterating loop that skips the feature after a dropped one violates the same invariant")
+    cases = ctx.tlcgen("MvtLayerMC", "MvtLayerGen.cfg", workers=2)
+    shards = ctx.gen("mvtlayerclip", cases=cases)
+    ctx.validate("MvtLayer_Trace", shards, stage="mvt-layer-clip")
     ctx.exhaustive = True
     ctx.notes.append("exhaustive part: every closed 3-vertex ring of the 5x5 (quick) / 6x6 (thorough) grid x every box with integer corners")
 
@@ -106,6 +114,44 @@ PLANS["C08"] = dict(
     rule="one event = one real clip call with input and output in lattice units; non-trivial = output non-empty and different from the input (clipring), both halves non-empty (clipsplit), some but not all points kept (clippts), more than one member (clipcoll); distinct = distinct event text",
     assumptions=["every Sutherland-Hodgman vertex is an input vertex, a box corner or an input edge /\\ box line, hence on the lattice (residual checked per vertex)"],
     trusted_base=["TLC 2026.09.04", "CommunityModules Json/IOUtils", "harness lattice projection (quant)"],
+)
+
+# ---- X01: extended coverage, not a listed property (not in MANIFEST.json) -----------------------------
+
+
+def run_x01(ctx):
+    ctx.mc("MvtLayerMC", "MvtLayerMC.cfg", workers=4, note="in-place compaction loop = filter-map")
+    ctx.mc_expect_violation("MvtLayerMC", "MvtLayerMC_splice.cfg", "SpliceFinal", workers=1, note="non-vacuity")
+    cases = ctx.tlcgen("MvtLayerMC", "MvtLayerGen.cfg", workers=2)
+    shards = ctx.gen("mvtlayer", cases=cases)
+    ctx.validate("MvtLayer_Trace", shards)
+    ctx.exhaustive = True
+
+
+PLANS["X01"] = dict(
+    run=run_x01, signature=sig_default,
+    technique="TLA+ model of the mvt.Layer pipeline (Clip, Simplify, RemoveEmpty) as filter-map over features; TLC checks the in-place compaction loop against it, emits every result vector for replay and validates traces of the real Layer / Layers methods",
+    level_text="extended coverage (no listed property): every keep / change / drop vector of <=5 features replayed through Layer.Clip, Layer.Simplify, Layer.RemoveEmpty and the Layers variants, alone and between two other layers, plus seeded layers of up to 11 features; TLC requires the resulting feature list to be exactly the filter-map of the per-geometry results, in order, with feature identity kept.",
+    level_note="per-geometry results come from calling clip.Geometry / the simplifier / planar.Length and Area directly (those are judged by C08, C12, C10)",
+    rule="one event = one layer before and after one operation", assumptions=[], trusted_base=["TLC 2026.09.04", "CommunityModules Json/IOUtils"],
+)
+
+# ---- X02: extended coverage -------------------------------------------------------------------------
+
+
+def run_x02(ctx):
+    ctx.mc("MergeUpPartial", "MergeUpPartial_%s.cfg" % ctx.tier, workers=8, timeout=3000, heap="16g",
+           note="MergeUpPartial loop with ANY map iteration order = level-wise partial merge PM for count 1..4; no area lost, never above min, exact for count 4")
+    shards = ctx.gen("mergepartial")
+    ctx.validate("MergeUpPartial_Trace", shards, cfg="MergeUpPartial_Trace.cfg")
+
+
+PLANS["X02"] = dict(
+    run=run_x02, signature=sig_default,
+    technique="TLA+ state machine of tilecover.MergeUpPartial with nondeterministic map order checked against a level-wise abstract result; TLC validates traces of the real MergeUpPartial and maptile.Set.Merge",
+    level_text="extended coverage (no listed property): TLC explores the MergeUpPartial loop in every map iteration order for structured zoom-2 inputs x min 0..2 x count 1..4 and checks result = PM, no area lost, never shallower than min, every result tile justified by an input tile, exact cover and disjointness for count = 4. Real MergeUpPartial results (4 repetitions each) on seeded zoom-2 and zoom-4 sets must equal PM and not vary; Set.Merge must be the union with the true entries of its argument and leave the argument unchanged.",
+    level_note="TLC found that for count < 4 the result may contain a tile together with one of its ancestors (recorded as an observation in DESIGN.md; MergeUpPartial is not covered by a listed property)",
+    rule="one event = one MergeUpPartial input (4 repetitions) or one Set.Merge call", assumptions=[], trusted_base=["TLC 2026.09.04", "CommunityModules Json/IOUtils"],
 )
 
 # ---- C11 -------------------------------------------------------------------------------------------
@@ -489,7 +535,7 @@ def run_c05(ctx):
     shards = ctx.gen("decmut")
     ctx.validate("Decoders_Trace", shards, stage="tiles-and-mutations")
     ctx.exhaustive = True
-    ctx.notes.append("exhaustive part: 2660 WKB headers x every truncation point; every WKT sentence of <=4 (quick) / <=5 (thorough) tokens over a 16-token alphabet; every MVT command-word sequence of <=4 words over 12 words x 3 geometry types; every 0-1 byte tile and every (7th) 2-byte tile")
+    ctx.notes.append("exhaustive part: 2660 WKB headers x every truncation point; every WKT sentence of <=4 (quick) / <=5 (thorough) tokens over a 16-token alphabet; every MVT command-word sequence of <=4 words over 14 words x 3 geometry types; every 0-1 byte tile and every (7th) 2-byte tile")
 
 
 def sig_c05(ev):
@@ -506,7 +552,7 @@ def sig_c05(ev):
 PLANS["C05"] = dict(
     run=run_c05, signature=sig_c05,
     technique="TLA+ reference decoders of the codec specs as outcome oracles plus an allocation bound; TLC enumerates the finite hostile-input spaces named by the property for replay, and judges every recorded decoder outcome",
-    level_text="TLC emits exactly the finite spaces the property names - every WKB header (order byte x type word x boundary count x payload shape), every WKT sentence of <=4 (5) tokens over a 16-token alphabet, every MVT command-word sequence of <=4 words over a 12-word alphabet - and the harness runs every decoder entry point on each (WKB/EWKB byte, stream, scanner x 10 destinations incl. hex and SRID-prefix framing; wkt.Unmarshal and the 7 typed parsers; mvt.Unmarshal), on every truncation of every header, on all 0..2-byte tiles, and on seeded structure-aware mutations (truncate, bit flip, count inflation, splice, nesting, duplication, GeoJSON member edits) of valid WKB/EWKB, WKT, MVT, GeoJSON and BSON encodings. Each call runs under recover, a watchdog and a TotalAlloc delta. TLC requires: a value or an error (never a panic or hang), allocation <= 4096*len + 8 MB, and - where the reference decoder of the codec spec fixes the meaning - agreement: bytes the WKB grammar accepts decode on every path to one and the same value with stable re-encoding, properly-headed but truncated / over-counted bytes fail on every path, WKT sentences the grammar accepts and MVT command streams the state machine accepts decode to exactly the specified value.",
+    level_text="TLC emits exactly the finite spaces the property names - every WKB header (order byte x type word x boundary count x payload shape), every WKT sentence of <=4 (5) tokens over a 16-token alphabet, every MVT command-word sequence of <=4 words over a 14-word alphabet (incl. MoveTo, LineTo and ClosePath words claiming millions of points) - and the harness runs every decoder entry point on each (WKB/EWKB byte, stream, scanner x 10 destinations incl. hex and SRID-prefix framing; wkt.Unmarshal and the 7 typed parsers; mvt.Unmarshal), on every truncation of every header, on all 0..2-byte tiles, and on seeded structure-aware mutations (truncate, bit flip, count inflation, splice, nesting, duplication, GeoJSON member edits) of valid WKB/EWKB, WKT, MVT, GeoJSON and BSON encodings. Each call runs under recover, a watchdog and a TotalAlloc delta. TLC requires: a value or an error (never a panic or hang), allocation <= 4096*len + 8 MB, and - where the reference decoder of the codec spec fixes the meaning - agreement: bytes the WKB grammar accepts decode on every path to one and the same value with stable re-encoding, properly-headed but truncated / over-counted bytes fail on every path, WKT sentences the grammar accepts and MVT command streams the state machine accepts decode to exactly the specified value.",
     level_note="Coverage-guided fuzzing is a different technique and not used. Byte-level garbage inside JSON / BSON / protobuf framing is handled by encoding/json, bson and protoscan (not orb code): for those inputs only value-or-error and the allocation bound are demanded. Allocation is measured single-threaded with runtime.MemStats.TotalAlloc. Trusted: TLC, Json module, runtime.MemStats, recover-based panic capture.",
     rule="one event = one input with the outcome of every decoder run on it and the bytes allocated; non-trivial = some decoder returned a value (WKB, WKT, MVT enumerations) / all raw events; distinct = distinct event text",
     assumptions=["a hang is detected by the 30 s watchdog of the harness", "fatal runtime errors (out of memory, stack exhaustion) kill the harness and are reported as a crash violation"],
